@@ -557,6 +557,53 @@ def make_bdsk(spec):
     return Scen(spec, make)
 
 
+def gen_bdmodel(rng, treekind, survival=True, n=None):
+    """BirthDeathModel (constant-rate birth-death with sampling) on a real time tree"""
+    n = n or rng.randint(4, 6)
+    t, x, b = gen_tree(rng, n, treekind)
+    root = x["root"][0] if "root" in x else max(x["heights"])
+    x["lambda"], b["lambda"] = [rpos(rng, 1.0, 3.0)], [0.0, None]
+    x["mu"], b["mu"] = [rpos(rng, 0.3, 1.0)], [0.0, None]
+    x["psi"], b["psi"] = [rpos(rng, 0.2, 1.0)], [0.0, None]
+    x["rho"], b["rho"] = [rng.uniform(0.1, 0.8)], [0.0, 1.0]
+    x["origin"], b["origin"] = [root + rng.uniform(0.3, 1.5)], [root, None]
+    return {"family": "bdmodel", "tree": t, "survival": survival, "x": x, "bounds": b,
+            "name": "birth_death_model/%s%s" % (treekind, "" if survival else "/nosurvival")}
+
+
+def make_bdmodel(spec):
+    _imports()
+    from torchtree.core.utils import process_object
+
+    def make(vals, grad):
+        dic = {}
+        t = spec["tree"]
+        tm = process_object(_tree_json(t, vals, grad), dic)
+        js = {"id": "bd", "type": "BirthDeathModel", "tree_model": "tree", "survival": spec["survival"]}
+        for k in ("lambda", "mu", "psi", "rho", "origin"):
+            js[k] = P(k, vals[k], grad)
+        mdl = process_object(js, dic)
+
+        def ev():
+            nh = tm.node_heights.reshape(-1).detach()
+            return torch.cat((nh, dic["origin"].tensor.detach().reshape(-1)[:1]))
+
+        return Built(mdl, {k: dic[k] for k in spec["x"]}, ev, t["n"])
+
+    return Scen(spec, make)
+
+
+def gen_underflow(rng, n=None, subst="JC69", site="const"):
+    """a tree large enough for the plain pruning pass to underflow: the first evaluation switches the
+    likelihood to the rescaled path by itself"""
+    n = n or rng.randint(560, 620)
+    spec = gen_like(rng, subst, site, "unrooted", 0, ambig=False, n=n, sites=2)
+    spec["x"]["bl"] = [rng.uniform(1.0, 3.0) for _ in spec["x"]["bl"]]
+    spec["name"] = "like/%s/%s/unrooted/underflow-switch/n=%d" % (subst, site, n)
+    spec["expect_switch"] = True
+    return spec
+
+
 def gen_bd(rng, n=None, hetero=True):
     """BirthDeath distribution (the model class cannot be called on the pinned tree: F09)"""
     n = n or rng.randint(4, 6)
@@ -985,7 +1032,7 @@ def make_joint(spec):
 
 
 # ----------------------------------------------------------------------------- dispatch
-_MAKERS = {"like": make_like, "coal": make_coal, "bdsk": make_bdsk, "bd": make_bd, "gmrf": make_gmrf,
+_MAKERS = {"bdmodel": make_bdmodel, "like": make_like, "coal": make_coal, "bdsk": make_bdsk, "bd": make_bd, "gmrf": make_gmrf,
            "gmrfcov": make_gmrfcov, "ctmc": make_ctmc, "cgd": make_cgd, "jac_tree": make_jac_tree,
            "jac_tp": make_jac_tp, "dist": make_dist, "misc": make_misc, "joint": make_joint}
 
@@ -1034,6 +1081,11 @@ def catalogue(rng, tier):
         add(lambda: gen_like(rng, rng.choice(["JC69", "HKY"]), "weibull", rng.choice(["unrooted", "ratio"]), rng.randrange(2), tip_states=True))
         add(lambda: gen_like(rng, "HKY", "weibull", "time", rng.randrange(2), clock="simple"))
 
+    # --- a tree large enough to underflow: the model switches itself to the rescaled path
+    add(lambda: gen_underflow(rng))
+    if thorough:
+        add(lambda: gen_underflow(rng, subst="HKY", site="weibull"))
+
     # --- coalescents
     for kind in COAL_KINDS:
         for tk in COAL_TREES:
@@ -1056,6 +1108,9 @@ def catalogue(rng, tier):
     for cfg in bd_cfgs:
         add(lambda c=cfg: gen_bdsk(rng, c[0], c[1], c[2], c[3], c[4], c[5]))
     add(lambda: gen_bd(rng))
+    for tk in ("time", "ratio"):
+        for surv in ((True, False) if thorough else (rng.random() < 0.7,)):
+            add(lambda t=tk, sv=surv: gen_bdmodel(rng, t, sv))
     if thorough:
         add(lambda: gen_bd(rng, hetero=False))
 
